@@ -48,9 +48,10 @@ class Transaction(transaction.Transaction):
 
     @raw_payee.setter
     def __raw_payee(self, value: Optional[EscapedString]) -> None:
-        if value is not None and self.raw_narration is None:
-            self.raw_narration = EscapedString.from_value('') 
-        self.raw_string1 = value
+        needs_narration = value is not None and self.raw_narration is None
+        self.raw_string1 = value  # may refuse the value: do it before touching the narration
+        if needs_narration:
+            self.raw_narration = EscapedString.from_value('')
 
     @internal.custom_property
     def raw_narration(self) -> Optional[EscapedString]:
